@@ -20,17 +20,12 @@ UNIT = Unit(
         Fn(file=SYN, name="to_syntax_kind", container="ToSyntaxKind for TokenKind", as_method_of="TokenKind", ret="r",
            rewrites=[("rowan::SyntaxKind", "SyntaxKind", 2)],
            contract="ensures r.0 == self as u16,"),
-        Fn(file=P, name="build_tree", container="Parser", as_method_of=PI, ret="r", rules=RULES + ["mutself"],
+        Fn(file=P, name="build_tree", container="Parser", as_method_of=PI, ret="r", rules=RULES + ["mutself", "closure_inline", "opt_or_else", "opt_map"],
            obligation="lossless: the green tree's leaves are exactly the token vector, in order, each once; rowan never panics; chains terminate",
            rewrites=[
                ("builder.start_node((kind).into())", "builder.start_node(syntax_kind_from(kind))"),
                ("for i in 0..self_.events.len() {", "for i in it: 0..self_.events.len() {"),
                ("for kind in kinds.into_iter().rev() {", "let mut kidx = kinds.len(); while kidx > 0 { kidx -= 1; let kind = kinds[kidx];"),
-               ("""let range = tokens
-                        .get(cursor)
-                        .map(|token| token.range)
-                        .or_else(|| tokens.last().map(|token| token.range));""",
-                """let range = match tokens.get(cursor) { Some(token) => Some(token.range), None => match tokens.last() { Some(token) => Some(token.range), None => None } };"""),
            ],
            contract="""
     requires
